@@ -1130,7 +1130,7 @@ func (vx *Vaxis) handleSequence(seq ansi.Sequence) {
 				log.Error("invalid OSC 176 payload")
 				return
 			}
-			vx.PostEvent(appID(vals[1]))
+			vx.PostEventBlocking(appID(vals[1]))
 		}
 	}
 }
